@@ -31,7 +31,7 @@ PRIM_PORTS = {
     "Vcvs": ["p", "n", "cp", "cn"], "Vccs": ["p", "n", "cp", "cn"], "Ccvs": ["p", "n", "cp", "cn"], "Cccs": ["p", "n", "cp", "cn"],
     "Mos": ["d", "g", "s", "b"], "Nmos": ["d", "g", "s", "b"], "Pmos": ["d", "g", "s", "b"],
     "Diode": ["p", "n"], "Res2": ["p", "n"], "Cap2": ["p", "n"], "Res3": ["p", "n", "b"], "Cap3": ["p", "n", "b"],
-    "Npn": ["c", "b", "e"], "Pnp": ["c", "b", "e"], "Short": ["p", "n"],
+    "Npn": ["c", "b", "e"], "Pnp": ["c", "b", "e"], "Bipolar": ["c", "b", "e"], "Short": ["p", "n"],
 }
 
 
